@@ -27,7 +27,7 @@ import itertools
 import os
 
 from mc import core, engine_seq
-from ref.gridmodel import GridModel, ModelError
+from ref.gridmodel import GridModel, ModelError, fix_blockname
 from checks import c08
 
 ID = 'C09'
@@ -286,26 +286,87 @@ def eval_reorder(grid, block_names, connection_names, geo=None, geoname=None):
     return v, g, grid
 
 
-def eval_rename(grid, pairs, via_t2data=False):
+def fix_tag(fix):
+    return {None: '', True: '(fix_blocknames=True)', False: '(fix_blocknames=False)'}[fix]
+
+
+def legal_rename(model, pairs, fix=None):
+    """Contract of a rename map, judged on the names that result (keys and values first pushed through
+    fix_blockname unless fix is False): one-to-one on the blocks it renames, no unrenamed present block hit,
+    and the resulting names still distinct when read as TOUGH2 '(a3,i2)' names (so that a data file can hold them)."""
+    mp = dict((a, b) for a, b in pairs)
+    if len(mp) != len(pairs):
+        return False
+    if fix is not False:
+        fx = dict((fix_blockname(a), fix_blockname(b)) for a, b in mp.items())
+        if len(fx) != len(mp):
+            return False
+        mp = fx
+    names = [mp.get(n, n) for n in model.blocks]
+    return len(set(names)) == len(names) and len(set(fix_blockname(n) for n in names)) == len(names)
+
+
+def eval_rename(grid, pairs, via_t2data=False, fix=None):
+    """fix: None = fix_blocknames left at its default (True), True / False = passed explicitly."""
     m = model_of(grid)
-    cls = c08.map_class(pairs, m.blocks)
-    site = 't2data.rename_blocks' if via_t2data else 'rename_blocks'
+    cls = c08.map_class([[fix_blockname(a), fix_blockname(b)] for a, b in pairs] if fix is not False else pairs, m.blocks)
+    if any(fix_blockname(x) != x for p in pairs for x in p):
+        cls += '+names-of-a3-i2-form'
+    site = ('t2data.rename_blocks' if via_t2data else 'rename_blocks') + fix_tag(fix)
+    given = dict((a, b) for a, b in pairs)
+    kw = {} if fix is None else {'fix_blocknames': fix}
     try:
         with quiet(), core.timelimit(60):
             if via_t2data:
                 import t2data
                 dat = t2data.t2data()
                 dat.grid = grid
-                dat.rename_blocks(dict((a, b) for a, b in pairs))
+                dat.rename_blocks(given, **kw)
             else:
-                grid.rename_blocks(dict((a, b) for a, b in pairs))
+                grid.rename_blocks(given, **kw)
     except core.CaseTimeout:
         return [('C09|%s|timeout|%s' % (site, cls), 'rename_blocks(%r) did not return within 60 s' % (pairs,))], None, grid
     except Exception as e:
         return [('C09|%s|raises:%s|%s' % (site, type(e).__name__, cls), 'rename_blocks(%r) raised %r' % (pairs, e))], None, grid
-    m.rename_blocks(dict((a, b) for a, b in pairs))
+    m.rename_blocks(dict((a, b) for a, b in pairs), fix is not False)
     v, g = judge(site, cls, m, grid)
     return v, g, grid
+
+
+def eval_delete(grid, name):
+    """delete_block: the block and every connection it takes part in go, the rest of the network stays."""
+    m = model_of(grid)
+    try:
+        with quiet(), core.timelimit(60):
+            grid.delete_block(name)
+    except core.CaseTimeout:
+        return [('C09|delete_block|timeout|any', 'delete_block(%r) did not return within 60 s' % (name,))], None, grid
+    except Exception as e:
+        return [('C09|delete_block|raises:%s|any' % type(e).__name__, 'delete_block(%r) raised %r' % (name, e))], None, grid
+    m.delete_block(name)
+    v, g = judge('delete_block', 'any', m, grid)
+    return v, g, grid
+
+
+def eval_neighbours(grid):
+    """What each block answers when asked for its neighbours and its connections, against the ordered lists."""
+    m = model_of(grid)
+    for b in grid.blocklist:
+        try:
+            with quiet():
+                got = sorted(b.neighbour_name)
+                cons = sorted(tuple(sorted(c)) for c in b.connection_name)
+        except Exception as e:
+            return [('C09|neighbour_name|raises:%s|any' % type(e).__name__, 'neighbour_name of block %r raised %r' % (b.name, e))]
+        want = sorted(m.neighbours(b.name))
+        if got != want:
+            return [('C09|neighbour_name|connected-pairs|any', 'block %r says its neighbours are %r, the connection list joins it to %r'
+                     % (b.name, got, want))]
+        wantc = sorted(tuple(sorted(c)) for c in m.cons_of(b.name))
+        if cons != wantc:
+            return [('C09|connection_name|connected-pairs|any', 'block %r says its connections are %r, the connection list has %r'
+                     % (b.name, cons, wantc))]
+    return []
 
 
 def eval_fileroundtrip(grid, flavour='inline'):
@@ -327,6 +388,9 @@ def eval_fileroundtrip(grid, flavour='inline'):
         return [('C09|%s|timeout|any' % site, 'data file round trip did not return within 60 s')], None, grid
     except Exception as e:
         return [('C09|%s|raises:%s|any' % (site, type(e).__name__), 'data file round trip raised %r' % (e,))], None, grid
+    if any(fix_blockname(b) != b for b in m.blocks):
+        # a name of the (a3,i2) form with a blank in column 4 is read back with the zero ('AB1 5' -> 'AB105')
+        m.rename_blocks(dict((b, fix_blockname(b)) for b in m.blocks), False)
     if flavour == 'binary':
         # the binary files have no way to say "no centre": a block written without one is not compared on it
         for b in m.blocks:
@@ -439,15 +503,86 @@ def rename_cases(model):
     yield [[bl[i], bl[-1 - i]] for i in range(len(bl)) if bl[i] != bl[-1 - i]]   # all swaps
 
 
-def rename_then_reverse(g, mp, via):
+FIXABLE = ['AB1 5', 'CD2 7']          # '(a3,i2)' names: digit in column 3, blank in column 4 - fix_blockname() gives 'AB105', 'CD207'
+PRESTATES = ['geometry-names', 'unfixed-name-present', 'fixed-name-present']
+
+
+def prestate_grid(g0, pre):
+    """The base grid / with its second block already carrying the literal name 'EF3 4' (renamed with
+    fix_blocknames=False) / carrying 'EF304' (renamed to 'EF3 4' with the default fixing)."""
+    g = copy.deepcopy(g0)
+    if pre != 'geometry-names':
+        with quiet():
+            g.rename_blocks({g.blocklist[1].name: 'EF3 4'}, fix_blocknames=(pre == 'fixed-name-present'))
+    return g
+
+
+def fixable_rename_cases(model):
+    """Maps whose keys / values are changed by fix_blockname: every one-to-one map on 3 present names + the two
+    fixable spares, maps keyed by the other spelling of a present name, whole-grid maps onto fixable names."""
+    bl = list(model.blocks)
+    for mp in c08.rename_maps(bl, bl[:3] + FIXABLE, False):
+        if mp:
+            yield mp
+    alias = [n for n in ('EF3 4', 'EF304') if n not in bl]          # the other spelling of a name that may be present
+    for a in alias:
+        yield [[a, FIXABLE[0]]]
+        yield [[a, bl[0]], [bl[0], a]]
+        yield [[a, bl[2]], [bl[2], FIXABLE[1]]]
+    yield [[b, 'G%s%d %d' % (b[1], 1 + i // 10, i % 10)] for i, b in enumerate(bl)]            # every block to a fixable name
+    yield [[b, 'H%s%d %d' % (b[1], 1 + i // 10, i % 10)] for i, b in enumerate(bl) if i % 2]   # every second block
+
+
+def post_ops(g, site, cls):
+    """What reads the renamed back-references: full reversal, neighbour lookups, delete_block of each block whose
+    name or whose neighbour's name could have changed (here: every block of a small grid, else the first 6)."""
+    out = []
+    for sg, what in eval_neighbours(g):
+        out.append(('neighbours', None, sg, what))
+    m = model_of(g)
+    for name in m.blocks[:6]:
+        viol, gate, _ = eval_delete(copy.deepcopy(g), name)
+        for sg, what in viol:
+            out.append(('delete_block', name, sg, what))
+    return out
+
+
+def rename_then_reverse(g, mp, via, fix=None):
     """g has just been renamed with mp; now reorder with every connection reversed.  An exception or a changed
     network is a violation of the composition."""
     m = model_of(g)
-    after = 't2data.rename_blocks' if via else 'rename_blocks'
+    after = ('t2data.rename_blocks' if via else 'rename_blocks') + fix_tag(fix)
     rev_ok = [i for i, c in enumerate(m.conns) if c[::-1] not in m.cinfo]
     cn = [list(c[::-1]) if i in rev_ok else list(c) for i, c in enumerate(m.conns)][::-1]
     viol, gate, g = eval_reorder(g, m.blocks[::-1], cn)
     return [(sg + '|after=' + after, what) for sg, what in viol]
+
+
+def rename_one(rec, gname, atm, pre, g0, m0, mp, via, fix):
+    """One rename on a private copy + the composed steps behind it.  Returns the number of cases."""
+    n = 1
+    g = copy.deepcopy(g0)
+    viol, gate, g = eval_rename(g, mp, via, fix)
+    if gate:
+        rec.count('gated_by_C08_invariant')
+    fx = (lambda x: x) if fix is False else fix_blockname
+    rec.case(('rename', gname, atm, pre, mp, via, fix), nontrivial=any(fx(a) != fx(b) and fx(a) in m0.blocks for a, b in mp),
+             outcome='gated' if gate else ('violation' if viol else 'ok'))
+    ctx = {'part': 'rename', 'base': [gname, atm], 'prestate': pre, 'map': mp, 'via_t2data': via, 'fix': fix}
+    for sig, what in viol:
+        rec.violation(sig, what, ctx)
+    if viol:
+        return n
+    after = ('t2data.rename_blocks' if via else 'rename_blocks') + fix_tag(fix)
+    # composed steps: neighbour lookups and delete_block on copies, then every connection listed the other way round
+    for kind, name, sig, what in post_ops(g, after, None):
+        rec.violation(sig + '|after=' + after, what, dict(ctx, part='rename+' + kind, block=name))
+    rec.case(('rename+lookups+delete', gname, atm, pre, mp, via, fix), outcome='ok')
+    v2 = rename_then_reverse(g, mp, via, fix)
+    rec.case(('rename+reverse', gname, atm, pre, mp, via, fix), outcome='violation' if v2 else 'ok')
+    for sig, what in v2:
+        rec.violation(sig, what, dict(ctx, part='rename+reverse'))
+    return n + 2
 
 
 def run_rename(base, tier, rec):
@@ -457,24 +592,22 @@ def run_rename(base, tier, rec):
     n = 0
     for mp in rename_cases(m0):
         for via in (False, True):
-            g = copy.deepcopy(g0)
-            viol, gate, g = eval_rename(g, mp, via)
-            if gate:
-                rec.count('gated_by_C08_invariant')
-            rec.case(('rename', gname, atm, mp, via), nontrivial=any(a != b and a in m0.blocks for a, b in mp),
-                     outcome='gated' if gate else ('violation' if viol else 'ok'))
-            for sig, what in viol:
-                rec.violation(sig, what, {'part': 'rename', 'base': [gname, atm], 'map': mp, 'via_t2data': via})
-            n += 1
-            if not viol:
-                # composed step: every connection listed the other way round, blocks in reverse order
-                v2 = rename_then_reverse(g, mp, via)
-                rec.case(('rename+reverse', gname, atm, mp, via), outcome='violation' if v2 else 'ok')
-                for sig, what in v2:
-                    rec.violation(sig, what, {'part': 'rename+reverse', 'base': [gname, atm], 'map': mp, 'via_t2data': via})
-                n += 1
-    rec.count('rename_cases', n)
-    rec.sample({'part': 'rename', 'base': [gname, atm], 'cases': n})
+            n += rename_one(rec, gname, atm, PRESTATES[0], g0, m0, mp, via, None)
+    # names that fix_blockname() changes, as keys and as values, fixing on (default / explicit) and off, both routes,
+    # from grids that hold geometry names only / an unfixed (a3,i2) name / its fixed form
+    nf = 0
+    for pre in PRESTATES:
+        gp = prestate_grid(g0, pre)
+        mp0 = model_of(gp)
+        for mp in fixable_rename_cases(mp0):
+            for fix in (None, True, False):
+                if not legal_rename(mp0, mp, fix):
+                    continue
+                for via in (False, True):
+                    nf += rename_one(rec, gname, atm, pre, gp, mp0, mp, via, fix)
+    rec.count('rename_cases', n + nf)
+    rec.count('rename_fixable_name_cases', nf)
+    rec.sample({'part': 'rename', 'base': [gname, atm], 'cases': n + nf, 'fixable_name_cases': nf})
 
 
 # ------------------------------------------------------------------------------------------------
@@ -513,6 +646,22 @@ def seq_ops(state, depth):
     ops.append(['rename', [[bl[0], bl[1]], [bl[1], bl[0]]]])
     ops.append(['rename', [[bl[i], (bl + spare)[i + 1]] for i in range(len(bl))]])
     ops.append(['t2data_rename', [[bl[-1], spare[0]]]])
+    # names of the (a3,i2) form that fix_blockname() changes: as a value with the fixing on (default) and off, through
+    # t2data, and - once such a block exists - as a key (the ops above then name it)
+    fx = [n for n in ('AB1 5', 'CD2 7', 'EF3 4') if n not in bl and fix_blockname(n) not in bl]
+    if fx:
+        ops.append(['rename', [[bl[0], fx[0]]]])
+        ops.append(['rename_nofix', [[bl[-1], fx[0]]]])
+        ops.append(['t2data_rename', [[bl[len(bl) // 2], fx[0]]]])
+        ops.append(['rename', [[b, fx[0][:4] + str(i % 10)] for i, b in enumerate(bl[:3])]])
+    unf = [b for b in bl if fix_blockname(b) != b]
+    if unf:
+        ops.append(['rename', [[fix_blockname(unf[0]), spare[1]]]])          # the fixed spelling of a block held unfixed
+        ops.append(['rename_nofix', [[unf[0], fix_blockname(unf[0])]]])     # fixing it by hand
+    if len(bl) > 3:
+        ops.append(['delete_block', bl[len(bl) // 2]])
+    ops = [op for op in ops if op[0] not in ('rename', 'rename_nofix', 't2data_rename')
+           or legal_rename(m, op[1], False if op[0] == 'rename_nofix' else None)]
     if len(cn) > 1:
         ops.append(['reorder', None, [cn[1], cn[0]] + cn[2:-1] + ([cn[-1][::-1]] if len(cn) - 1 in rev_ok and len(cn) > 2 else cn[-1:] if len(cn) > 2 else [])])
     ops.append(['write+read'])
@@ -532,6 +681,10 @@ def seq_step(state, op):
         viol, gate, g = eval_rename(state.grid, op[1])
     elif k == 't2data_rename':
         viol, gate, g = eval_rename(state.grid, op[1], True)
+    elif k == 'rename_nofix':
+        viol, gate, g = eval_rename(state.grid, op[1], False, False)
+    elif k == 'delete_block':
+        viol, gate, g = eval_delete(state.grid, op[1])
     elif k == 'write+read':
         viol, gate, g = eval_fileroundtrip(state.grid, op[1] if len(op) > 1 else 'inline')
     else:
@@ -540,7 +693,7 @@ def seq_step(state, op):
     if state.gate:
         viol = [(sg + '|after=' + state.gate, what) for sg, what in viol]
     elif gate:
-        state.gate = '%s(%s)' % ({'rename': 'rename_blocks', 't2data_rename': 't2data.rename_blocks'}.get(k, k), gate)
+        state.gate = '%s(%s)' % ({'rename': 'rename_blocks', 't2data_rename': 't2data.rename_blocks', 'rename_nofix': 'rename_blocks(fix_blocknames=False)'}.get(k, k), gate)
         state.newly_gated = True
     return viol
 
@@ -939,7 +1092,7 @@ def run_unit(unit, tier, rec):
 
 
 def finalize(rec, tier):
-    return {'parts': {k: rec.counters.get(k, 0) for k in ('reorder_cases', 'rename_cases', 'seq_transitions', 'minc_cases', 'embed_cases')},
+    return {'parts': {k: rec.counters.get(k, 0) for k in ('reorder_cases', 'rename_cases', 'rename_fixable_name_cases', 'seq_transitions', 'minc_cases', 'embed_cases')},
             'gated_by_C08_invariant': rec.counters.get('gated_by_C08_invariant', 0),
             'base_grids': ['%s/atm%d' % b for b in bases()],
             'dimensions': {'reorder (<=4 blocks and <=4 connections)': 'crossed', 'reorder (larger)': 'bounded k<=2',
@@ -971,13 +1124,20 @@ def replay(case):
         if case['scramble']:
             do_reorder(g, m0.blocks[::-1], [list(c[::-1]) for c in m0.conns][::-1])
         return eval_reorder(g, None, None, geo=base_geo(gname, atm, case['order']), geoname=str(case['order']))[0]
-    if part == 'rename':
+    if part and part.startswith('rename'):
         gname, atm = case['base']
-        return eval_rename(base_grid(gname, atm), case['map'], case['via_t2data'])[0]
-    if part == 'rename+reverse':
-        gname, atm = case['base']
-        viol, gate, g = eval_rename(base_grid(gname, atm), case['map'], case['via_t2data'])
-        return viol or rename_then_reverse(g, case['map'], case['via_t2data'])
+        fix, via = case.get('fix'), case['via_t2data']
+        g = prestate_grid(base_grid(gname, atm), case.get('prestate', PRESTATES[0]))
+        viol, gate, g = eval_rename(g, case['map'], via, fix)
+        if viol or part == 'rename':
+            return viol
+        after = ('t2data.rename_blocks' if via else 'rename_blocks') + fix_tag(fix)
+        if part == 'rename+reverse':
+            return rename_then_reverse(g, case['map'], via, fix)
+        if part == 'rename+neighbours':
+            return [(sg + '|after=' + after, w) for sg, w in eval_neighbours(g)]
+        if part == 'rename+delete_block':
+            return [(sg + '|after=' + after, w) for sg, w in eval_delete(g, case['block'])[0]]
     if part == 'minc':
         return eval_minc(minc_grid(case['variant']), case['fractions'], case['planes'], case['spacing'], case['blocks'], case.get('fcd'), case.get('flavour', 'names'))
     if part == 'embed2':
